@@ -1102,4 +1102,14 @@ theorem nested_lazy_td_operand_partial (f : V → V → V) (sa s0 s1 oa ox d : V
 example : (binop (fun x y : Nat => x + y) (nestedLazyItems 1 2 3) (.td (nestedDenseItems 10 20)) (.value 100)).toOption.isSome = true := by
   rfl
 
+/-- **known finding C09-nestedlazy-comparison-shape (partial)**: inside a plain tensordict a nested lazy stack of `n`
+members compares every member (leaf shape `f`) with the WHOLE operand entry (shape `n :: f`) and stacks the `n`
+results: the leaf comes out with shape `n :: n :: f` instead of `n :: f` (here `n = 3`, `f = []` and `f = [2]`) -/
+theorem nested_lazy_cmp_shape_partial :
+    (broadcastShapes [] [3]).map (fun s => 3 :: s) = some [3, 3] ∧
+    (broadcastShapes [2] [3, 2]).map (fun s => 3 :: s) = some [3, 3, 2] ∧
+    ([3, 3] : List Nat) ≠ [3] ∧ ([3, 3, 2] : List Nat) ≠ [3, 2] := by
+  decide
+
+
 end TdVerif.Props.C09
